@@ -127,13 +127,43 @@ def load_known(pid):
 
 # ------------------------------------------------------------------ sharded execution
 def _worker(args):
-    fn_mod, fn_name, pid, seed, shard, ncases, tier, extra = args
+    fn_mod, fn_name, pid, seed, shard, ncases, tier, extra = args[:8]
+    if len(args) > 8 and args[8]:
+        # where is a shard that does not come back? (read by run_shards when it gives up waiting)
+        try:
+            import faulthandler
+            _hang = open(hang_file(pid, shard), "w")
+            faulthandler.dump_traceback_later(max(5, args[8] - 20), file=_hang)
+        except Exception:
+            pass
     try:
         mod = __import__(fn_mod)
         fn = getattr(mod, fn_name)
         return fn(pid, seed, shard, ncases, tier, extra)
     except Exception:
         return {"crash": traceback.format_exc(), "shard": shard}
+    finally:
+        if len(args) > 8 and args[8]:
+            try:
+                import faulthandler
+                faulthandler.cancel_dump_traceback_later()
+            except Exception:
+                pass
+
+
+def hang_file(pid, shard):
+    d = os.path.join(VERIF, "replays", "_hang")
+    os.makedirs(d, exist_ok=True)
+    return os.path.join(d, "%s_%d_%d.txt" % (pid, shard, os.getppid() if multiprocessing.current_process().name != "MainProcess" else os.getpid()))
+
+
+def shard_limit(tier, scale):
+    """seconds run_shards waits for its shards: far above anything seen on the unchanged tree (quick <= ~90 s, thorough
+    <= ~70 min), so that it only fires when the code under test (or the model driver) no longer comes back"""
+    try:
+        return float(os.environ["VERIF_SHARD_LIMIT"])
+    except (KeyError, ValueError):
+        return (900.0 if tier == "quick" else 4 * 3600.0) * max(1.0, scale)
 
 
 DRIFT = {}
@@ -157,13 +187,37 @@ def run_shards(fn_mod, fn_name, pid, seed, nshards, ncases_per_shard, tier, extr
         boost = THOROUGH_BOOST.get(pid, 1) if os.environ.get("VERIF_THOROUGH_BOOST", "") != "1" else 1
         ncases_per_shard *= boost
         DRIFT[pid]["thorough_boost"] = boost
-    jobs = [(fn_mod, fn_name, pid, seed, s, ncases_per_shard, tier, extra) for s in range(nshards)]
+    limit = shard_limit(tier, sc)
+    jobs = [(fn_mod, fn_name, pid, seed, s, ncases_per_shard, tier, extra, limit) for s in range(nshards)]
     if procs <= 1:
-        outs = [_worker(j) for j in jobs]
+        outs = [_worker(j[:8]) for j in jobs]
     else:
         ctx = multiprocessing.get_context("fork")
-        with ctx.Pool(procs) as pool:
-            outs = pool.map(_worker, jobs, chunksize=1)
+        pool = ctx.Pool(procs)
+        deadline = time.time() + limit
+        pend = [pool.apply_async(_worker, (j,)) for j in jobs]
+        outs = []
+        for j, r in zip(jobs, pend):
+            try:
+                outs.append(r.get(timeout=max(1.0, deadline - time.time())))
+            except multiprocessing.TimeoutError:
+                where = ""
+                try:
+                    where = open(hang_file(pid, j[4])).read()[:3000]
+                except OSError:
+                    pass
+                outs.append({"findings": [Finding("correspondence", "harness/shard-did-not-come-back",
+                    "shard %d of the %s tier (seed %d, %d cases per shard) did not finish within %.0f s: the code under "
+                    "test or the model driver no longer returns on some generated case; python stack of the worker "
+                    "shortly before the limit:\n%s" % (j[4], tier, seed, ncases_per_shard, limit, where),
+                    {"seed": seed, "shard": j[4], "tier": tier, "ncases_per_shard": ncases_per_shard, "limit_s": limit})]})
+        pool.terminate()
+        pool.join()
+        for j in jobs:
+            try:
+                os.remove(hang_file(pid, j[4]))
+            except OSError:
+                pass
     merged = {"evaluations": 0, "nontrivial": 0, "model_lines": 0, "findings": [], "samples": [], "hist": {}, "crashes": []}
     for o in outs:
         if "crash" in o:
